@@ -13,10 +13,16 @@ DSTS = ["mc", "a1", "a2", "a3", "a4", "a5"]
 
 def gen(rng, n, collect):
     sched, tag, started = [], 0, False
+    sids = {}
     t = 0
     # destinations of this history: multicast and two IPv4 peers, or two peers that differ only in their IPv6 scope id
     dsts = ["mc", "a4", "a5"] if rng.random() < 0.25 else ["mc", "a1", "a2"]
     huge = rng.random() < 0.1        # one history in ten: bursts that do not fit one 1400-byte datagram
+    if rng.random() < 0.6:       # the destinations have been heard before: a later message with session id 1 is reboot evidence
+        for src in dsts[1:]:
+            for mc in (False, True):
+                sids[(src, mc)] = 5
+                sched.append({"t": 0, "j": 0, "op": "rx", "src": src, "mc": mc, "sid": 5, "rb": True, "uc": True, "es": []})
     for _ in range(n):
         dt = rng.choice([0, 0, 0, 0, 1, 1, 2] if collect else [0, 0, 1, 2])
         t += dt
@@ -27,6 +33,13 @@ def gen(rng, n, collect):
         if r < 0.12:
             sched.append({"t": t, "j": j, "op": "ann_stop" if started else "ann_start"})
             started = not started
+        elif r < 0.22 and len(dsts) > 1:
+            # an (empty) SD message of one of the destinations, now and then with reboot evidence: nothing queued for it may get lost
+            src = rng.choice(dsts[1:])
+            mc = rng.random() < 0.5
+            k = (src, mc)
+            sids[k] = 1 if (k not in sids or rng.random() < 0.7) else sids[k] + 1
+            sched.append({"t": t, "j": j, "op": "rx", "src": src, "mc": mc, "sid": sids[k], "rb": True, "uc": True, "es": []})
         else:
             burst = rng.choice([1, 1, 1, 2, 3, rng.randint(16, 40)]) if r < 0.95 else 1
             if huge and burst > 3:
